@@ -8,7 +8,8 @@ variable {α : Type}
 
 theorem inv_prod_enter {cfg : Cfg} {src₀ : List (Notif α)} {s : St α} (h : Inv cfg src₀ s)
     (x : Notif α) (xs : List (Notif α)) (hpc : s.ppc = .idle) (hsrc : s.src = x :: xs) (hup : s.upOpen = true) :
-    Inv cfg src₀ { s with src := xs, ppc := .send x, entered := s.entered ++ [x], upOpen := !x.isTerminal } := by
+    Inv cfg src₀ { s with src := xs, ppc := .send x, entered := s.entered ++ [x], upOpen := !x.isTerminal,
+                          raised := s.raised || (cfg.upPanic && cfg.hot && x.isTerminal) } := by
   obtain ⟨hfifo, hflow, hroom, hfc, hopen, hwhole, hpre, honce, hcloses, hstops, hp, hc, ht, hterm, hhc, hhf,
     hec, hecut, heout, hedown, hop, hhd, hub, hde, hef, hnd⟩ := h
   cases hx : x.isTerminal <;> simp only [Bool.not_true, Bool.not_false] <;> inv_auto
